@@ -8,6 +8,7 @@ thing, so the harness itself is unaffected.
 import builtins
 import datetime as _datetime
 import io
+import errno
 import os
 import sys
 import time as _time
@@ -248,6 +249,44 @@ def install():
         fs = _sim_path(path)
         return _real["os.access"](path, mode, *a, **kw) if fs is None else fs.exists(path)
 
+    def sim_meta(name):
+        """chmod / utime / chown on a simulated path: the path must exist, nothing else happens
+        (modes and times are not part of what is judged)."""
+        real = _real["os." + name] = getattr(os, name)
+
+        def f(path, *a, **kw):
+            fs = _sim_path(path) if isinstance(path, (str, bytes, os.PathLike)) else None
+            if fs is None:
+                if isinstance(path, int) and WORLD.fs is not None and WORLD.fs.is_fake_fd(path):
+                    return None
+                return real(path, *a, **kw)
+            if not fs.exists(path):
+                raise FileNotFoundError(errno.ENOENT, "No such file or directory", str(path))
+            fs.trace.ev(name, fs.norm(path), "")
+            return None
+        return f
+
+    for _n in ("chmod", "utime", "chown"):
+        if hasattr(os, _n):
+            setattr(os, _n, sim_meta(_n))
+
+    _real["os.fsync"] = os.fsync
+
+    def sim_os_fsync(fd):
+        fs = WORLD.fs
+        return None if fs is not None and fs.is_fake_fd(fd) else _real["os.fsync"](fd)
+
+    os.fsync = sim_os_fsync
+    _real["os.fstat"] = os.fstat
+
+    def sim_os_fstat(fd):
+        fs = WORLD.fs
+        if fs is not None and fs.is_fake_fd(fd):
+            return fs.os_stat(fs._fds[fd].path)
+        return _real["os.fstat"](fd)
+
+    os.fstat = sim_os_fstat
+
     os.open = sim_os_open
     os.fdopen = sim_os_fdopen
     os.write = sim_os_write
@@ -404,12 +443,29 @@ def install():
         pass
 
 
+def _reset_random_names():
+    """tempfile draws its names from an os.urandom-seeded generator: a source of nondeterminism
+    like any other.  Every run starts the same seeded name sequence."""
+    import random
+    import tempfile
+
+    class _SeededNames(tempfile._RandomNameSequence):
+        @property
+        def rng(self):
+            if getattr(self, "_sim_rng", None) is None:
+                self._sim_rng = random.Random(0x51D5EED)
+            return self._sim_rng
+
+    tempfile._name_sequence = _SeededNames()
+
+
 def activate(fs, env):
     """Make (fs, env) the world seen by the system under test."""
     from . import simfs as _simfs  # noqa
 
     WORLD.fs = fs
     WORLD.env = env
+    _reset_random_names()
     if fs is not None:
         fs.tagger = _emitter_tag
     if env is not None:
